@@ -1,0 +1,145 @@
+// ---------------------------------------------------------------------------
+// Verification hooks (feature `verif-hooks`, off by default).
+//
+// Nothing in here influences any result. The hooks only record which
+// internal branch an operation went through, so that an external monitor can
+// report what its workload actually reached.
+// ---------------------------------------------------------------------------
+
+//! Branch-coverage hooks for external runtime monitors.
+
+use core::cell::Cell;
+use core::sync::atomic::{AtomicU64, Ordering};
+
+use crate::RoundingMode;
+
+/// Number of hook sites (one bit per site in the per-operation mask).
+pub const N_SITES: usize = 64;
+
+macro_rules! sites {
+    ($($id:expr => $name:ident, $text:expr;)*) => {
+        $(
+        #[allow(missing_docs)]
+        pub const $name: u8 = $id;
+        )*
+        /// Names of the hook sites, indexed by site id.
+        pub const SITE_NAMES: [&str; N_SITES] = {
+            let mut names = [""; N_SITES];
+            $( names[$id] = $text; )*
+            names
+        };
+    };
+}
+
+sites! {
+    0 => IDIV64, "idiv64";
+    1 => IDIV64_Y1, "idiv64.y1";
+    2 => IDIV128_HI_GE, "idiv128.hi_ge";
+    3 => KNUTH, "knuth";
+    4 => KNUTH_NBITS0, "knuth.nbits0";
+    5 => KNUTH_Q1_DEC1, "knuth.q1.dec1";
+    6 => KNUTH_Q1_DEC2, "knuth.q1.dec2";
+    7 => KNUTH_Q1_BREAK, "knuth.q1.break";
+    8 => KNUTH_Q0_DEC1, "knuth.q0.dec1";
+    9 => KNUTH_Q0_DEC2, "knuth.q0.dec2";
+    10 => KNUTH_Q0_BREAK, "knuth.q0.break";
+    11 => SHDM_NONE, "shdm.none";
+    12 => SHDM_NEG_POS, "shdm.neg_pos";
+    13 => SHDM_NEG_NEG, "shdm.neg_neg";
+    14 => SHDM_POS_NEG, "shdm.pos_neg";
+    15 => SHDM_EXACT_NEG, "shdm.exact_neg";
+    16 => I256_NONE, "i256.none";
+    17 => I256_NEG, "i256.neg";
+    18 => I256_EXACT_NEG, "i256.exact_neg";
+    19 => DIVR_EQ, "divr.eq";
+    20 => DIVR_LESS_NARROW, "divr.less.narrow";
+    21 => DIVR_LESS_WIDE, "divr.less.wide";
+    22 => DIVR_GREATER_FIT, "divr.greater.fit";
+    23 => DIVR_GREATER_OVF, "divr.greater.ovf";
+    24 => MULR_EXACT, "mulr.exact";
+    25 => MULR_NARROW, "mulr.narrow";
+    26 => MULR_WIDE, "mulr.wide";
+    27 => REM_EQ, "rem.eq";
+    28 => REM_GT_FIT, "rem.gt.fit";
+    29 => REM_GT_OVF, "rem.gt.ovf";
+    30 => REM_LT_FIT, "rem.lt.fit";
+    31 => REM_LT_STEP, "rem.lt.step";
+    32 => REM_LT_STEP_OVF, "rem.lt.step_ovf";
+    33 => CMP_LHS_OVF, "cmp.lhs_ovf";
+    34 => CMP_RHS_OVF, "cmp.rhs_ovf";
+    35 => PARSE_CHUNK_ACCEPT, "parse.chunk_accept";
+    36 => PARSE_CHUNK_REJECT, "parse.chunk_reject";
+    37 => PARSE_TAIL_DIGIT, "parse.tail_digit";
+    38 => PARSE_OVF_NDIGITS, "parse.ovf_ndigits";
+    39 => PARSE_OVF_39, "parse.ovf_39";
+    40 => PARSE_OVF_MAX, "parse.ovf_max";
+    41 => PARSE_EXP_SATURATED, "parse.exp_saturated";
+    42 => ROUND_NOOP, "round.noop";
+    43 => ROUND_TINY, "round.tiny";
+    44 => ROUND_SHIFT_BACK, "round.shift_back";
+    45 => APPROX_TIE, "approx.tie";
+    46 => APPROX_ROUND_UP, "approx.round_up";
+    47 => TOFLOAT_ADJ, "tofloat.adj";
+    48 => TOFLOAT_TIE, "tofloat.tie";
+    49 => GCD_LOOP, "gcd.loop";
+    50 => RQ_MODE_DEFAULT, "round_quot.mode_default";
+    51 => RQ_TIE, "round_quot.tie";
+    52 => RQ_OVERFLOW, "round_quot.overflow";
+    53 => RQ_INEXACT, "round_quot.inexact";
+    54 => APPROX_FRAC_LIMIT, "approx.frac_limit";
+    55 => APPROX_MAGN_LIMIT, "approx.magn_limit";
+}
+
+#[allow(clippy::declare_interior_mutable_const)]
+const ZERO: AtomicU64 = AtomicU64::new(0);
+static COUNTS: [AtomicU64; N_SITES] = [ZERO; N_SITES];
+
+thread_local!(
+    static OP_MASK: Cell<u64> = const { Cell::new(0) };
+    static OP_MODE: Cell<u8> = const { Cell::new(0xff) };
+);
+
+/// Record that the calling thread passed hook site `site`.
+#[inline]
+pub fn hit(site: u8) {
+    OP_MASK.with(|m| m.set(m.get() | (1_u64 << site)));
+    COUNTS[site as usize].fetch_add(1, Ordering::Relaxed);
+}
+
+/// Record `n` (if > 0) loop iterations: hits `site_once` for n == 1 and
+/// `site_once + 1` for n >= 2.
+#[inline]
+pub fn hit_n(site_once: u8, n: u32) {
+    match n {
+        0 => {}
+        1 => hit(site_once),
+        _ => hit(site_once + 1),
+    }
+}
+
+/// Record the rounding mode the kernel resolved from the thread default.
+#[inline]
+pub fn mode_read(mode: RoundingMode) {
+    OP_MODE.with(|m| m.set(mode as u8));
+}
+
+/// Read and clear the calling thread's per-operation trace:
+/// (site mask, last mode read from the thread default or 0xff).
+#[inline]
+#[must_use]
+pub fn take_op_trace() -> (u64, u8) {
+    (
+        OP_MASK.with(|m| m.replace(0)),
+        OP_MODE.with(|m| m.replace(0xff)),
+    )
+}
+
+/// Snapshot of the process-wide hit counters.
+#[must_use]
+pub fn snapshot() -> [u64; N_SITES] {
+    let mut res = [0_u64; N_SITES];
+    for (i, c) in COUNTS.iter().enumerate() {
+        res[i] = c.load(Ordering::Relaxed);
+    }
+    res
+}
